@@ -25,7 +25,12 @@ def decap_analysis(ck, tag='c03'):
 
     def after_take(I, w, frame, site, args, rv):
         w.mem[('G', 'taken')] = rv
-    cfg = decap_cfg(f, {'call_hooks': kind_hooks(), 'ret_hooks': {CRC_TRAIT: after_crc, TRAIT_MEM + 'take_frag': after_take}})
+
+    def on_save(I, w, frame, site, key, args):
+        w.mem[('G', '~saved')] = ('enum', ((1, ()),))
+    hooks = dict(kind_hooks())
+    hooks[TRAIT_MEM + 'save_frag'] = on_save
+    cfg = decap_cfg(f, {'call_hooks': hooks, 'ret_hooks': {CRC_TRAIT: after_crc, TRAIT_MEM + 'take_frag': after_take}})
     return ck.analyse(DEC + 'decap', cfg, tag=tag)
 
 
@@ -211,12 +216,33 @@ def rules(ck, P='C03'):
             new, old = mc[1][0][1], cb[0][1]
             ok = (mc[1][1][1] == cb[1][1] and new[ix['pdu_len']][0] == 'int' and not has_trunc(new[ix['pdu_len']][1])
                   and W.store.entails_eq(new[ix['pdu_len']][1], old[ix['pdu_len']][1] + gse - 1)
-                  and all(veq(W, new[ix[n]], old[ix[n]]) for n in ('label', 'protocol_type', 'frag_id', 'total_len', 'from_label_reuse')))
+                  and all(veq(W, new[ix[n]], old[ix[n]]) for n in ('label', 'protocol_type', 'frag_id', 'total_len', 'from_label_reuse', 'extensions_header')))
         if ok:
             ck.discharged += 1
         else:
             ck.finding(f'{P}.R5', r.site[0], 'saved-context', 'decap_intermediate: the context saved is not the taken one with pdu_len advanced by exactly the payload of this packet', r.site)
     ck.rule(f'{P}.R5 save_frag calls of decap_intermediate', nsave, 1)
+    # ---- R8: a fragment that is refused closes the train ("all later fragments with that id" includes the refused one): the
+    # context taken for an end packet is never stored again, and the context taken for an intermediate packet is stored again
+    # only on the path that accepts the packet
+    nclosed = 0
+    for w, rv in a.rets:
+        kind = kind_of(w)
+        if kind not in (2, 3) or taken_ctx_box(w) is None:
+            continue
+        saved = ghost(w, '~saved') is not None
+        for v, fs in (ret_alts(rv) or []):
+            nclosed += 1
+            ck.obligations += 1
+            names = []
+            if v == 1 and fs[0][0] == 'agg' and fs[0][1][0][0] == 'enum':
+                names = [f.variant_name('gse_decap::DecapError', x) for x, _ in fs[0][1][0][1]]
+            if saved and (kind == 3 or (v == 1 and names != ['ErrorMemory'])):
+                ck.finding(f'{P}.R8', DEC + 'decap', f"train-not-closed:{kind}:{v}:{','.join(names)}",
+                           f"{'an end' if kind == 3 else 'a refused intermediate'} packet ({'Ok' if v == 0 else 'Err ' + '/'.join(names)}) puts the context it took back into the memory: fragments that arrive later are appended to a train that should have been closed")
+            else:
+                ck.discharged += 1
+    ck.rule(f'{P}.R8 returns of intermediate / end packets after take_frag (train closed unless the packet is accepted)', nclosed, 6)
     # ---- R7: the context created by a first fragment comes from this packet only
     nnew = 0
     for r in a.events('call'):
